@@ -310,14 +310,31 @@ theorem order_indep_tells {lo hi : α} (hlt : lo < hi) (dxEps : α) (nn d : Nat)
   · exact validOps_tells lossFn r12 ts₁ _ hin
   · exact validOps_tells lossFn r12 ts₂ _ (fun kv hkv => hin kv (hperm.symm.subset hkv))
 
-/-- **C11, one by one versus one `tell_many`** (forced or not) of a permutation of the same results.
-Validity of the `tell_many` is a hypothesis: when the batch path is taken it requires both end
-points of the domain among the told abscissae (`ValidOp`). -/
+/-- one `tell_many` of points inside the domain is a valid history, provided a FORCED batch is not
+empty (an unforced call takes the batch path only with more than two points).  No condition on the
+end points of the domain. -/
+theorem validOps_tellMany (ts : List (α × List α)) (force : Bool) (s : State α)
+    (hin : ∀ kv ∈ ts, s.lo ≤ kv.1 ∧ kv.1 ≤ s.hi) (hne : force = true → ts ≠ []) :
+    ValidOps lossFn r12 s [.tellMany ts force] := by
+  refine ⟨⟨hin, ?_⟩, trivial⟩
+  rintro (hf | ⟨-, h2⟩)
+  · exact hne hf
+  · intro e
+    rw [e] at h2
+    exact absurd h2 (by simp)
+
+/-- **C11, one by one versus one `tell_many`** (forced or not, loop or batch path) of a permutation
+of the same results.  The only side condition left is that a FORCED batch is not empty (see
+`ValidOp` and the example at the end of the file: a forced empty batch of an empty learner puts the
+model's default `0` into the x-box; the real code raises).  Before the repair
+`fix: Learner1D.tell_many batch path shrank the x-scale to the range of the points` validity of the
+`tell_many` was a hypothesis that required, on the batch path, both end points of the domain among
+the told abscissae. -/
 theorem tells_vs_tellMany {lo hi : α} (hlt : lo < hi) (dxEps : α) (nn d : Nat)
     {ts₁ ts₂ : List (α × List α)} (force : Bool) (hperm : ts₁.Perm ts₂)
     (hnd : (ts₁.map Prod.fst).Nodup)
     (hdim : ∀ kv ∈ ts₁, kv.2.length = d) (hin : ∀ kv ∈ ts₁, lo ≤ kv.1 ∧ kv.1 ≤ hi)
-    (hv₂ : ValidOps lossFn r12 (init lo hi 1 dxEps nn) [.tellMany ts₂ force]) :
+    (hne : force = true → ts₂ ≠ []) :
     Agree lossFn r12 (run lossFn r12 (init lo hi 1 dxEps nn) (ts₁.map tellOp))
       (run lossFn r12 (init lo hi 1 dxEps nn) [.tellMany ts₂ force]) := by
   have ht : toldOf [Op.tellMany ts₂ force] = ts₂ := by simp [toldOf, tellsOf]
@@ -327,7 +344,8 @@ theorem tells_vs_tellMany {lo hi : α} (hlt : lo < hi) (dxEps : α) (nn d : Nat)
   · rw [toldOf_map_tellOp]; exact hnd
   · rw [toldOf_map_tellOp]; exact hdim
   · exact validOps_tells lossFn r12 ts₁ _ hin
-  · exact hv₂
+  · exact validOps_tellMany lossFn r12 ts₂ force _
+      (fun kv hkv => hin kv (hperm.symm.subset hkv)) hne
 
 /-- with nothing pending the combined view coincides with the real one: `xsC = xs` and
 `lossesC = losses` as lists -/
@@ -363,10 +381,14 @@ theorem lossesC_eq_losses_of_no_pending {s : State α} (c : Canon lossFn r12 s)
 * `factor = 1` is needed: with `factor = 2` the interval `(0, 1)` keeps the loss computed with the
   output scale `1` in the order `0, 1, 10` (the scale grows to `3/2 < 2 · 1`, no recomputation), but
   is computed with `3/2` in the order `10, 0, 1`.
-* before the repair `fix: Learner1D.tell_many batch path shrank the x-scale` a forced `tell_many` that did
-  not contain the end points of the domain set `scaleX` to the extent of the data (`2`) instead of the
-  domain width (`10`), and single tells and the batch disagreed; the second example records that they
-  agree now. -/
+* before the repair `fix: Learner1D.tell_many batch path shrank the x-scale to the range of the points`
+  a forced `tell_many` that did not contain the end points of the domain set `scaleX` to the extent of
+  the data (`2`) instead of the domain width (`10`), and single tells and the batch disagreed; the
+  second example records that they agree now — it is an instance of `tells_vs_tellMany`, which no
+  longer has an end-point hypothesis (third example).
+* `force = true → ts₂ ≠ []` of `tells_vs_tellMany` is needed in the model: on the domain `[1, 2]` no
+  tell at all leaves `bboxX = (1, 2)`, a forced empty batch leaves `(0, 2)` (fourth example; the real
+  code raises `ValueError` there). -/
 section counterexamples
 
 def oiLoss : List (Option Rat) → List (Option (List Rat)) → Loss Rat
@@ -381,6 +403,19 @@ example :
 example :
     (run oiLoss id (init (0 : Rat) 10 1 0 0) ([(2, [0]), (3, [1]), (4, [10])].map tellOp)).losses =
     (run oiLoss id (init (0 : Rat) 10 1 0 0) [.tellMany [(2, [0]), (3, [1]), (4, [10])] true]).losses := by
+  decide +kernel
+
+/-- `tells_vs_tellMany` applied to a forced batch of interior points only -/
+example :
+    Agree oiLoss id
+      (run oiLoss id (init (0 : Rat) 10 1 0 0) ([(2, [0]), (3, [1]), (4, [10])].map tellOp))
+      (run oiLoss id (init (0 : Rat) 10 1 0 0) [.tellMany [(4, [10]), (2, [0]), (3, [1])] true]) :=
+  tells_vs_tellMany oiLoss id (by decide) 0 0 1 true (by decide +kernel) (by decide +kernel)
+    (by decide +kernel) (by decide +kernel) (fun _ => by decide)
+
+example :
+    (run oiLoss id (init (1 : Rat) 2 1 0 0) (([] : List (Rat × List Rat)).map tellOp)).bboxX = (1, 2) ∧
+    (run oiLoss id (init (1 : Rat) 2 1 0 0) [.tellMany [] true]).bboxX = (0, 2) := by
   decide +kernel
 
 end counterexamples
